@@ -4,6 +4,8 @@ package main
 // in exactly the line format the model driver prints, so that a plain diff decides agreement.
 
 import (
+	"runtime"
+	"runtime/debug"
 	"bufio"
 	"bytes"
 	"encoding/hex"
@@ -669,4 +671,33 @@ func emitRegCases(w *caseWriter, r *rng, thorough bool) {
 		}
 		w.add(class, "RG\t"+strings.Join(toks, " "), "ok\t"+strings.Join(outs, " "))
 	}
+}
+
+// ---------- allocation: the cost model against runtime.MemStats (one-sided) ----------
+// A case is (type, input bytes); the observation is the number of bytes one Decode allocated (TotalAlloc delta, GC off);
+// the model answers with decode_cost.  The orchestrator requires  observed <= costA*model + costB.
+func emitCostCases(w *caseWriter, r *rng, rounds int, thorough bool) {
+	old := debug.SetGCPercent(-1)
+	defer debug.SetGCPercent(old)
+	n := 3
+	if thorough {
+		n = 12
+	}
+	forTypesAndEntries(r, func(t *genType, mk func(genOpts) any, tag string) {
+		m := mk(genOpts{canonical: true, bigLists: r.chance(1, 4)})
+		_, enc := encodeFresh(m)
+		ins := hostileInputs(r, t, enc, n)
+		ins = append(ins, enc)
+		for _, in := range ins {
+			if len(in) > 1<<16 {
+				continue
+			}
+			buf := bytes.NewBuffer(append([]byte{}, in...))
+			recv := t.New()
+			measureDecode(t.New(), bytes.NewBuffer(append([]byte{}, in...))) // warm caches of the runtime (type descriptors, error values)
+			delta, st := measureDecode(recv, buf)
+			w.add("cost/"+st, fmt.Sprintf("DC\t%d\t%s", t.Id, hex.EncodeToString(in)), fmt.Sprintf("ok\t%d", delta))
+		}
+	})
+	runtime.GC()
 }
